@@ -44,7 +44,7 @@ def scenarios(prop, quick, seed):
         return scenarios_c11(quick, seed)
     n = 320 if quick else 4000
     kinds = [["set"], ["invalidate"], ["compute"], ["evict"], ["set", "invalidate"], ["setifabsent"], ["invalidateAll"], [],
-             ["compute", "set"], ["invalidate", "invalidate"], ["setifabsent", "setifabsent"]]
+             ["compute", "set"], ["invalidate", "invalidate"], ["setifabsent", "setifabsent"], ["computeinv"], ["computeinv", "computeinv"]]
     out = []
     for j in range(n):
         refreshers = [0, 1, 0, 2][(j // 2) % 4]
